@@ -8,8 +8,11 @@ import (
 	"context"
 	"encoding/json"
 	"fmt"
+	"net/http"
 	"os"
 	"strings"
+	"sync"
+	"sync/atomic"
 	"time"
 
 	"github.com/bluenviron/gohlslib/v2/internal/zzverif/vh"
@@ -83,8 +86,13 @@ func c20Scens(tier string) []c20Scen {
 	return out
 }
 
+var c20E2E = []string{"e2e look-ahead ts v", "e2e look-ahead ts va", "e2e look-ahead fmp4 v", "e2e look-ahead fmp4 va", "e2e look-ahead fmp4 v+a"}
+
 func c20List(tier string) []vh.Scenario {
 	var out []vh.Scenario
+	for _, n := range c20E2E {
+		out = append(out, vh.Scenario{Name: n, Weight: 50})
+	}
 	for _, s := range c20Scens(tier) {
 		w := 1
 		for i := 0; i < s.Pushes+s.Pulls; i++ {
@@ -254,6 +262,12 @@ func c20Run(c *vh.Ctx) {
 		}
 		return
 	}
+	if strings.HasPrefix(c.Scenario, "e2e look-ahead") {
+		if os.Getenv("VERIF_FREE") == "" {
+			c20EndToEnd(c)
+		}
+		return
+	}
 	found := false
 	for _, s := range c20Scens(c.Tier) {
 		if s.name() == c.Scenario {
@@ -350,5 +364,61 @@ func c20Free(c *vh.Ctx, sc c20Scen) {
 			})
 		}, func(bool) { cancel() })
 		c.Exec()
+	}
+}
+
+// c20EndToEnd: traditional-mode client against a server that answers instantly; at every segment request the number of
+// segments downloaded so far minus the number fully delivered must not exceed 3 (one being processed, two waiting).
+func c20EndToEnd(c *vh.Ctx) {
+	var cont, tracks string
+	fmt.Sscanf(c.Scenario, "e2e look-ahead %s %s", &cont, &tracks)
+	for _, nseg := range []int{6, 9, 14} {
+		for _, vod := range []bool{true, false} {
+			cs := c10Case{Container: cont, Tracks: tracks, Frags: 1, PDT: true, VOD: vod, NSeg: nseg}
+			st, err := c10Build(cs)
+			if err != nil {
+				c.EngineError("%v", err)
+				return
+			}
+			var progress int64
+			srv := st.server()
+			inner := srv.handler
+			type look struct{ seg, downloaded, delivered int }
+			var worst look
+			var mu sync.Mutex
+			downloaded := 0
+			srv.handler = func(n int, path, rawQuery string, req *http.Request) srvResp {
+				name := path[strings.LastIndexByte(path, '/')+1:]
+				if strings.HasPrefix(name, "r0_seg") {
+					mu.Lock()
+					downloaded++
+					// the leading rendition carries 4 video units per segment (audio-only is not used here)
+					del := int(atomic.LoadInt64(&progress)) / 4
+					if downloaded-del > worst.downloaded-worst.delivered {
+						worst = look{seg: downloaded - 1, downloaded: downloaded, delivered: del}
+					}
+					mu.Unlock()
+				}
+				return inner(n, path, rawQuery, req)
+			}
+			uri := "http://media.example/vod/r0.m3u8"
+			if len(st.rends) > 1 {
+				uri = "http://media.example/vod/index.m3u8"
+			}
+			obs := runClientPlain(c.T, uri, srv, cliOpts{Progress: &progress})
+			c.Exec()
+			outcome := fmt.Sprintf("%s nseg=%d vod=%v worst look-ahead=%d end=%s", c.Scenario, nseg, vod, worst.downloaded-worst.delivered, c11Class(obs.WaitErr))
+			c.Outcome(outcome)
+			c.Sample(map[string]any{"scenario": c.Scenario, "segments": nseg, "vod": vod, "worst_lookahead": worst.downloaded - worst.delivered, "end": c11Class(obs.WaitErr)})
+			if len(obs.Panics) > 0 {
+				c.Violation("e2e/client-panic", obs.Panics[0], nil)
+			}
+			if worst.downloaded-worst.delivered > 3 {
+				c.Violation("e2e/look-ahead-unbounded", fmt.Sprintf("when segment %d was requested %d segments had been downloaded and only %d fully delivered (look-ahead %d > 3): buffering is not bounded by the processor (%s nseg=%d vod=%v)", worst.seg, worst.downloaded, worst.delivered, worst.downloaded-worst.delivered, c.Scenario, nseg, vod), nil)
+			}
+			if c11Class(obs.WaitErr) != "eos" || obs.Wedged || obs.Leaked {
+				c.Violation("e2e/wrong-end", fmt.Sprintf("client ended with %v (wedged=%v leaked=%v)", obs.WaitErr, obs.Wedged, obs.Leaked), nil)
+			}
+		}
 	}
 }
